@@ -12,6 +12,7 @@ EXPLANATION = (
     "connection's channel; (R3) Sim/SimStaticsGuard drop clear the global module context and reset the whole global event buffer; "
     "(R4) the back edges (parent, me, gate owner, timer handle->slot, slot->queue, buffer->globals) are Weak. "
     "Opaque owners (dyn Module, dyn ProcessingElement, Waker, tokio runtime) end the search: cycles closed through user state are invisible. "
+    '(R5, shared with C15.R5) events still queued when the simulation is dropped are released: every bucket list pops until empty and the buckets are emptied before the allocator goes. '
     "Decides these necessary conditions only; not exactly-once destruction over generated simulations.")
 ASSUMPTIONS = ["Arc/Rc free their content when the last strong reference is dropped", "cycles through dyn Module / user state are out of reach"]
 
